@@ -12,22 +12,23 @@ pub enum Node {
     Symlink(String),
 }
 
-#[derive(Clone, Debug, PartialEq, Eq)]
+#[derive(Clone, Debug, PartialEq, Eq, serde::Serialize, serde::Deserialize)]
 pub enum Answer {
     True,
     False,
     Opened,
-    Err(io::ErrorKind),
+    /// Debug rendering of the io::ErrorKind
+    Err(String),
     /// end of a read stream: bytes delivered, how it ended, whether the delivered bytes are UTF-8
-    Stream { delivered: usize, end: &'static str, utf8: bool },
+    Stream { delivered: usize, end: String, utf8: bool },
 }
 
-#[derive(Clone, Debug)]
+#[derive(Clone, Debug, serde::Serialize, serde::Deserialize)]
 pub struct Event {
     pub seq: u64,
     pub tid: usize,
     pub call: usize,
-    pub op: &'static str,
+    pub op: String,
     /// path as the library passed it
     pub raw_path: String,
     /// normalised absolute path
@@ -36,7 +37,7 @@ pub struct Event {
     /// FileScope nesting depth of the calling thread (1 = top file)
     pub file_depth: usize,
     pub macro_depth: usize,
-    pub fault: Option<&'static str>,
+    pub fault: Option<String>,
 }
 
 #[derive(Default)]
@@ -233,7 +234,7 @@ impl Vfs {
                 "open",
                 raw,
                 &p,
-                Answer::Err(io::ErrorKind::Other),
+                Answer::Err(format!("{:?}", io::ErrorKind::Other)),
                 depths,
                 Some("open_budget"),
             );
@@ -254,7 +255,7 @@ impl Vfs {
             };
             *g.fired.entry(f.name()).or_insert(0) += 1;
             if let Some(kind) = kind {
-                push_event(&mut g, tid, "open", raw, &p, Answer::Err(kind), depths, Some(f.name()));
+                push_event(&mut g, tid, "open", raw, &p, Answer::Err(format!("{:?}", kind)), depths, Some(f.name()));
                 return Err(io::Error::new(kind, "svsim: injected open fault"));
             }
         }
@@ -265,7 +266,7 @@ impl Vfs {
         };
         match resolved {
             Err(kind) => {
-                push_event(&mut g, tid, "open", raw, &p, Answer::Err(kind), depths, None);
+                push_event(&mut g, tid, "open", raw, &p, Answer::Err(format!("{:?}", kind)), depths, None);
                 Err(io::Error::new(kind, "svsim: no such file"))
             }
             Ok((_, node)) => {
@@ -357,7 +358,7 @@ impl Vfs {
             &r.path,
             Answer::Stream {
                 delivered: r.pos,
-                end,
+                end: end.to_string(),
                 utf8: std::str::from_utf8(&r.data[..r.pos.min(r.data.len())]).is_ok(),
             },
             r.depths,
@@ -392,13 +393,13 @@ fn push_event(
         seq,
         tid,
         call,
-        op,
+        op: op.to_string(),
         raw_path: raw.to_string(),
         path: p.to_string(),
         answer,
         file_depth: depths.0,
         macro_depth: depths.1,
-        fault,
+        fault: fault.map(|f| f.to_string()),
     });
 }
 
